@@ -118,7 +118,9 @@ fn check<S: Shape>(ctx: &mut Ctx, shape: S, st: StyleD) {
     let mut fa = IterTarget::<C>::new(unbounded_box());
     fa.log.budget = budget as u64;
     {
-        let mut ps = PrimitiveStyle::<C>::with_stroke(C::nth(6), st.width.wrapping_add(3));
+        // (the other style is dotted, made by the builder: a flag derived from the stroke style at build
+        // time would be stale after the assignment below; seeded `C06-18`)
+        let mut ps = embedded_graphics::primitives::PrimitiveStyleBuilder::<C>::new().stroke_color(C::nth(6)).stroke_width(st.width.wrapping_add(3)).stroke_style(embedded_graphics::primitives::StrokeStyle::Dotted).build();
         let mut s2 = Styled::new(shape, ps);
         ps.fill_color = style.fill_color;
         ps.stroke_color = style.stroke_color;
